@@ -172,6 +172,66 @@ func parserInputs(o *propOpts, each func(e *entry, s string, origin string)) {
 			}
 		}
 	}
+	// systematic QUOTED-word substitutions (the round-trip and losslessness predicates only: they are about what SQL() prints): an
+	// identifier replaced by a back-quoted word that parser.go compares identifiers with (INSERT, OPTIONS, INTERLEAVE, VALUE, type
+	// names, ...) at one position of every distinct (statement head, previous token, next token kind) context of the golden inputs and of a
+	// sample of G: written with back quotes such a word is an ordinary name, and it must still be one after SQL() printed it bare
+	if o.prop == "C01" || o.prop == "C02" {
+		qwCtx := map[string]bool{}
+		words := parserWords()
+		quoteAt := func(e *entry, text string) {
+			toks, ok := tokenSpans(text)
+			if !ok || len(toks) < 2 {
+				return
+			}
+			head := ""
+			switch strings.ToUpper(toks[0].Raw) {
+			case "CREATE", "ALTER", "DROP":
+				head = strings.ToUpper(toks[0].Raw)
+				if len(toks) > 2 && (toks[1].Kind != token.TokenIdent || gIsKeywordLike(toks[1].Raw)) {
+					head += " " + strings.ToUpper(toks[1].Raw)
+				}
+			}
+			for i := 1; i+1 < len(toks); i++ {
+				t := toks[i]
+				if t.Kind != token.TokenIdent || strings.HasPrefix(t.Raw, "`") || gIsKeywordLike(t.Raw) {
+					continue
+				}
+				prev := string(toks[i-1].Kind)
+				if toks[i-1].Kind == token.TokenIdent {
+					if prev = strings.ToUpper(toks[i-1].Raw); !gIsKeywordLike(prev) {
+						prev = "<ident>"
+					}
+				}
+				next := string(toks[i+1].Kind)
+				if toks[i+1].Kind == token.TokenIdent && gIsKeywordLike(toks[i+1].Raw) {
+					next = strings.ToUpper(toks[i+1].Raw)
+				}
+				key := head + "\x00" + prev + "\x00" + next
+				if qwCtx[key] {
+					continue
+				}
+				qwCtx[key] = true
+				for _, w := range words {
+					edits++
+					if o.tier != "thorough" && edits%4 != int(o.seed%4) {
+						continue
+					}
+					each(e, text[:t.Pos]+"`"+strings.ToLower(w)+"`"+text[t.End:], "edit-quotedword")
+				}
+			}
+		}
+		for _, cf := range files {
+			if !cf.Bad {
+				quoteAt(entryByName(entryForDir(cf.Dir)), cf.Text)
+			}
+		}
+		for i, st := range gSentences(o.tier, o.seed) {
+			if i%16 == 0 || o.tier == "thorough" {
+				quoteAt(entryByName(st.entry), st.text)
+			}
+		}
+	}
 	nmut := 15000
 	if o.tier == "thorough" {
 		nmut = 120000
